@@ -60,16 +60,16 @@ def tokenize(text, state="data", last_start_tag=None, cdata=False, with_errors=F
     return out
 
 
-def parser(builder="dom", namespace=True, strict=False, full_tree=False, debug=False):
+def parser(builder="dom", namespace=True, strict=False, full_tree=None, debug=False):
     import html5lib
     kw = {}
-    if builder == "etree" and full_tree:
-        kw["fullTree"] = True
+    if builder == "etree" and full_tree is not None:
+        kw["fullTree"] = bool(full_tree)   # None: the keyword is not passed at all; False is passed explicitly
     tb = html5lib.getTreeBuilder(builder, **kw)
     return html5lib.HTMLParser(tree=tb, strict=strict, namespaceHTMLElements=namespace, debug=debug)
 
 
-def parse(text, builder="dom", namespace=True, scripting=False, container=None, full_tree=False, **kw):
+def parse(text, builder="dom", namespace=True, scripting=False, container=None, full_tree=None, **kw):
     """Parse document (container None) or fragment with a brand-new parser; returns (result, parser)."""
     p = parser(builder, namespace, full_tree=full_tree)
     if container is None:
@@ -113,14 +113,14 @@ class _BoundedLog(list):
             list.append(self, x)
 
 
-def parse_bounded(text, limit, builder="dom", namespace=True, scripting=False, container=None, full_tree=False):
+def parse_bounded(text, limit, builder="dom", namespace=True, scripting=False, container=None, full_tree=None):
     """Parse with HTMLParser(debug=True), whose main loop appends one record to parser.log per token dispatch;
     the log is replaced by a counting list, so a token that is reprocessed for ever becomes a deterministic
     DispatchLimit instead of a hang (no wall clock involved)."""
     import html5lib
     kw = {}
-    if builder == "etree" and full_tree:
-        kw["fullTree"] = True
+    if builder == "etree" and full_tree is not None:
+        kw["fullTree"] = bool(full_tree)   # None: the keyword is not passed at all; False is passed explicitly
     tb = html5lib.getTreeBuilder(builder, **kw)
 
     class P(html5lib.HTMLParser):
